@@ -45,33 +45,39 @@ theorem C21_sorted_set_mem (l : List String) (x : String) : x ∈ pyCfg.sortDedu
   mem_sortDedupBy _ l x
 
 /-- SHARED `seen`.  Walking several roots one after the other with one `seen` set (starting
-empty) emits every node at most once, reaches every root, the emitted set is closed under
-`dependencies()`, and — given per-layer completeness (a layer's records reference only its own
-keys or keys of its dependencies' layers) — every dependency of every emitted record is produced by
-an emitted layer (`_check_complete` holds for the union). -/
-theorem C21_walk_shared_seen {α σ : Type} [DecidableEq α] (deps : α → List α) (fuel : Nat)
-    (roots seen' out' : List α) (h : walkAll deps fuel roots [] [] = some (seen', out'))
-    (keysOf depsOf : α → List σ)
-    (hlayer : ∀ e, ∀ s ∈ depsOf e, s ∈ keysOf e ∨ ∃ d ∈ deps e, s ∈ keysOf d) :
-    out'.Nodup ∧ (∀ e, e ∈ seen' ↔ e ∈ out') ∧ (∀ r ∈ roots, r ∈ out') ∧ DepClosed deps out' ∧
+empty; nodes deduplicated by NAME) emits at most one node per name, reaches the name of every
+root, every dependency of an emitted node has the name of an emitted node, and — given per-layer
+completeness (a layer's records reference only its own keys or the block grid of a dependency's
+name) and that every node produces the grid of its name — every dependency of every emitted record
+is produced by an emitted layer (`_check_complete` holds for the union). -/
+theorem C21_walk_shared_seen {α β σ : Type} [DecidableEq β] (nm : α → β) (deps : α → List α)
+    (fuel : Nat) (roots : List α) (seen' : List β) (out' : List α)
+    (h : walkAll nm deps fuel roots [] [] = some (seen', out'))
+    (keysOf depsOf : α → List σ) (gridOf : β → List σ)
+    (hlayer : ∀ e, ∀ s ∈ depsOf e, s ∈ keysOf e ∨ ∃ d ∈ deps e, s ∈ gridOf (nm d))
+    (hprod : ∀ e, ∀ s ∈ gridOf (nm e), s ∈ keysOf e) :
+    (out'.map nm).Nodup ∧ (∀ b, b ∈ seen' ↔ b ∈ out'.map nm) ∧ (∀ r ∈ roots, nm r ∈ out'.map nm) ∧
+    (∀ e ∈ out', ∀ d ∈ deps e, nm d ∈ out'.map nm) ∧
     ∀ e ∈ out', ∀ s ∈ depsOf e, ∃ e' ∈ out', s ∈ keysOf e' := by
-  obtain ⟨hc, hr, new, h1, h2, _, h4⟩ := walkAll_spec deps fuel roots [] [] seen' out' h
+  obtain ⟨hc, hr, new, h1, h2, _, h4⟩ := walkAll_spec nm deps fuel roots [] [] seen' out' h
     (fun e he => by cases he)
   have hout : out' = new := by simpa using h1
-  have hiff : ∀ e, e ∈ seen' ↔ e ∈ out' := fun e => by rw [h4 e, hout]; simp
-  have hc' : DepClosed deps out' := fun e he d hd => (hiff d).mp (hc e ((hiff e).mpr he) d hd)
-  exact ⟨hout ▸ h2, hiff, fun r hr' => (hiff r).mp (hr r hr'), hc',
-    union_complete deps keysOf depsOf hlayer hc'⟩
+  have hiff : ∀ b, b ∈ seen' ↔ b ∈ out'.map nm := fun b => by rw [h4 b, hout]; simp
+  have hc' : ∀ e ∈ out', ∀ d ∈ deps e, nm d ∈ out'.map nm :=
+    fun e he d hd => (hiff _).mp (hc e he d hd)
+  exact ⟨hout ▸ h2, hiff, fun r hr' => (hiff _).mp (hr r hr'), hc',
+    union_complete nm deps keysOf depsOf gridOf hlayer hprod hc'⟩
 
-/-- a later collection walked with a non-empty shared `seen` contributes only nodes that were
-not seen before, each once -/
-theorem C21_walk_increment {α : Type} [DecidableEq α] (deps : α → List α) (fuel : Nat)
-    (roots seen out seen' out' : List α) (h : walkAll deps fuel roots seen out = some (seen', out'))
-    (hc : DepClosed deps seen) :
-    DepClosed deps seen' ∧ (∀ r ∈ roots, r ∈ seen') ∧
-    ∃ new, out' = out ++ new ∧ new.Nodup ∧ (∀ e ∈ new, e ∉ seen) ∧
-      (∀ e, e ∈ seen' ↔ e ∈ seen ∨ e ∈ new) :=
-  walkAll_spec deps fuel roots seen out seen' out' h hc
+/-- a later collection walked with a non-empty shared `seen` contributes only nodes whose names
+were not seen before, one per name -/
+theorem C21_walk_increment {α β : Type} [DecidableEq β] (nm : α → β) (deps : α → List α) (fuel : Nat)
+    (roots : List α) (seen : List β) (out : List α) (seen' : List β) (out' : List α)
+    (h : walkAll nm deps fuel roots seen out = some (seen', out'))
+    (hc : NameClosed nm deps out seen) :
+    NameClosed nm deps out' seen' ∧ (∀ r ∈ roots, nm r ∈ seen') ∧
+    ∃ new, out' = out ++ new ∧ (new.map nm).Nodup ∧ (∀ e ∈ new, nm e ∉ seen) ∧
+      (∀ b, b ∈ seen' ↔ b ∈ seen ∨ b ∈ new.map nm) :=
+  walkAll_spec nm deps fuel roots seen out seen' out' h hc
 
 /-! ### non-vacuity: a concrete nested task -/
 
@@ -102,9 +108,13 @@ example : (match records cfgN 0 nested with
 in `_Flattener` is observable) -/
 example : evalRec interp envN ⟨0, .fn 2, [], [.ref 10, .ref 11], [10]⟩ = none := by decide
 
-/-- two collections sharing the subtree `{2, 3}`: `0 → 2 → 3`, `1 → 2` -/
-def depsW : Nat → List Nat := fun n => if n = 0 then [2] else if n = 1 then [2] else if n = 2 then [3] else []
-example : walkAll depsW 10 [0, 1] [] [] = some ([1, 3, 2, 0], [0, 2, 3, 1]) := by decide
-example : (walk depsW 10 [1] [3, 2, 0] [0, 2, 3]).map (·.2) = some [0, 2, 3, 1] := by decide
+/-- two collections sharing the subtree `{2, 3}`: `0 → 2 → 3`, `1 → 2`; node 12 is a pin carrying
+the NAME of node 2 (as a `RootAlias` does) over a differently optimized subtree `12 → 13` -/
+def depsW : Nat → List Nat := fun n =>
+  if n = 0 then [2] else if n = 1 then [2] else if n = 2 then [3] else if n = 12 then [13] else []
+def nmW : Nat → Nat := fun n => n % 10
+example : walkAll nmW depsW 10 [0, 1] [] [] = some ([1, 3, 2, 0], [0, 2, 3, 1]) := by decide
+/-- the pin 12 is skipped (its name 2 was emitted by the first collection), so is its subtree -/
+example : walkAll nmW depsW 10 [0, 12] [] [] = some ([3, 2, 0], [0, 2, 3]) := by decide
 
 end Dask.Props.C21
